@@ -9,9 +9,11 @@
    "d < r => returned, d > r => not returned, d = r => either").  [rows] / [mrows] are the data (one row of channel values / mask bits per source location),
    [fill = None] is fill_value=None, [sentinel] the dtype maximum used internally for it.  A result cell is the pair
    (channel values, channel mask bits) of one target location. *)
-From Coq Require Import ZArith Bool List Lia Reals PrimFloat.
+From Coq Require Import ZArith Bool List Lia Reals PrimFloat Permutation.
 From PR Require Import Base.Num Base.RNum Base.F64 Model.KDTree
-     Model.C02_run Proofs.C02_lists Proofs.C02_query Proofs.C02_pipeline Proofs.C02_main Proofs.C02_fast.
+     Model.C02_run Gen.GenC02 Proofs.C02_lists Proofs.C02_query Proofs.C02_pipeline Proofs.C02_main Proofs.C02_fast Proofs.C02_gen Proofs.C02_sphere Proofs.C02_ext
+     Base.Slice Model.Partition Proofs.C03_sphere.
+From PR Require Model.Organise.
 Import ListNotations.
 Open Scope nat_scope.
 
@@ -167,6 +169,21 @@ Theorem C02_valid_iff_in_range : forall (lons lats : list R) i, length lons = le
 Proof. intros lons lats i Hl Hi. split; [exact (valid_input_index_R lons lats i Hl Hi)|exact (valid_output_index_R lons lats i Hl Hi)]. Qed.
 Print Assumptions C02_valid_iff_in_range.
 
+(* source-level tie: the validity masks regenerated from the CURRENT kd_tree._get_valid_input_index /
+   _get_valid_output_index by the translator on every run are the model's valid_in / valid_out for every arithmetic
+   instance (binary64 and NaN included; [reduced] is the data_reduce mask the target mask is and-ed with;
+   either order of testing longitudes / latitudes is accepted) *)
+Theorem C02_gen_valid_in_is_model : forall (T : Type) (OP : ops T),
+  (forall lon lat, gen_valid_in OP lon lat = valid_in OP lon lat) \/
+  (forall lon lat, gen_valid_in OP lat lon = valid_in OP lon lat).
+Proof. exact (@gen_valid_in_char). Qed.
+Print Assumptions C02_gen_valid_in_is_model.
+Theorem C02_gen_valid_out_is_model : forall (T : Type) (OP : ops T),
+  (forall lon lat (reduced : bool), gen_valid_out OP lon lat reduced = reduced && valid_out OP lon lat) \/
+  (forall lon lat (reduced : bool), gen_valid_out OP lat lon reduced = reduced && valid_out OP lon lat).
+Proof. exact (@gen_valid_out_char). Qed.
+Print Assumptions C02_gen_valid_out_is_model.
+
 (* a flat index survives the compaction exactly when it is flagged valid *)
 Theorem C02_compact_keeps_exactly_valid : forall m s, In s (compact m) <-> valid_at m s.
 Proof. exact in_compact. Qed.
@@ -241,6 +258,80 @@ Theorem C02_exact_contract_implies_relaxed : forall r2 d cands a b c i,
   knn_spec r2 d cands i -> knn_spec_tol a b c r2 d cands i.
 Proof. exact knn_spec_weaken. Qed.
 Print Assumptions C02_exact_contract_implies_relaxed.
+
+(* ------------------------------------------------------------------------------------------------------------
+   epsilon > 0 (approximate query, eps = p / q): a tree that is (1 + eps)-optimal on distances, i.e. meets
+   knn_spec_tol ((q+p)^2) (q^2) 0, gives every target a valid source within the radius whose distance is at most
+   (1 + eps) times the minimal one (squared form), or fill when no valid source is closer than r / (1 + eps). *)
+Theorem C02_epsilon_approximate_if :
+  forall (V D : Type) (veqb : V -> V -> bool) (vzero vone : V),
+    veqb vzero vzero = true -> veqb vone vzero = false ->
+  forall (p q r2 : Z) (d2 : nat -> nat -> Z) (tshape : list Z) (dtype : D) (multi : bool) (k : nat)
+         (rows : list (list V)) (mrows : option (list (list bool))) (vin vout : list bool)
+         (fill : option V) (sentinel : V),
+    wf_input multi k rows mrows vin -> veqb sentinel sentinel = true ->
+    (fill = None -> forall s, valid_at vin s -> forall v, In v (nth s rows []) -> veqb v sentinel = false) ->
+  forall knn : list nat -> nat -> nat,
+    (forall t, valid_at vout t ->
+       knn_spec_tol ((q + p) * (q + p)) (q * q) 0 r2 (d2 t) (compact vin) (knn (compact vin) t)) ->
+  forall t, t < length vout ->
+    let kk := if multi then k else 1 in
+    let cell := nth t (o_cells (resample_nn veqb vzero vone knn tshape dtype multi k rows mrows vin vout fill sentinel))
+                    ([], []) in
+    (exists s, valid_at vout t /\ valid_at vin s /\
+        (forall s', valid_at vin s' -> (q * q * d2 t s <= (q + p) * (q + p) * d2 t s' + 0)%Z) /\
+        (q * q * d2 t s <= (q + p) * (q + p) * r2 + 0)%Z /\
+        fst cell = nth s rows [] /\
+        snd cell = match mrows with Some mm => nth s mm [] | None => repeat false kk end)
+    \/
+    ((~ valid_at vout t \/ forall s', valid_at vin s' -> (q * q * r2 <= (q + p) * (q + p) * d2 t s' + 0)%Z) /\
+     (forall f, fill = Some f -> fst cell = repeat f kk) /\
+     (fill = None -> snd cell = repeat true kk)).
+Proof.
+  intros V D veqb vzero vone H0 H1 p q. exact (@main_tol V D veqb vzero vone H0 H1 ((q + p) * (q + p))%Z (q * q)%Z 0%Z).
+Qed.
+Print Assumptions C02_epsilon_approximate_if.
+
+(* ------------------------------------------------------------------------------------------------------------
+   segments / nprocs (composition with C03, whose model of get_neighbour_info's segment loop, RowAppendableArrays
+   and worker slices is Model/Organise.v): for EVERY segments argument and every hand-out of target slices to worker
+   processes, get_neighbour_info returns the valid_output_index and index array of Model/KDTree.v's neighbour_info --
+   so every theorem above holds for any segments / nprocs.  [g] is the target grid as rows of flat indices. *)
+Theorem C02_any_segments : forall (knn : list nat -> nat -> nat) (vin vout : list bool)
+    (segments : option Z) (g : list (list nat)) (capacity : Z),
+  concat g = seq 0 (length vout) -> KDTree.compact vin <> [] ->
+  Organise.neighbour_info (knn (KDTree.compact vin)) (fun t => nth t vout false)
+                          (Organise.segments_of segments (Z.of_nat (length (concat g)))) g capacity =
+  (map Some (snd (fst (KDTree.neighbour_info knn vin vout))), map Some (snd (KDTree.neighbour_info knn vin vout))).
+Proof. exact any_segments. Qed.
+Print Assumptions C02_any_segments.
+Theorem C02_any_nprocs : forall (knn : list nat -> nat -> nat) (vin vout : list bool)
+    (handed tiling : list pslice) (init : list nat),
+  KDTree.compact vin <> [] ->
+  tiles 0 tiling (Z.of_nat (length (KDTree.compact vout))) -> Permutation handed tiling ->
+  length init = length (KDTree.compact vout) ->
+  Organise.run_workers (knn (KDTree.compact vin)) (KDTree.compact vout) handed init = snd (KDTree.neighbour_info knn vin vout).
+Proof. exact any_nprocs. Qed.
+Print Assumptions C02_any_nprocs.
+
+(* ------------------------------------------------------------------------------------------------------------
+   Cartesian.transform_lonlats (Model/KDTree.v: transform_lonlat, cos / sin oracles) over the reals: every location
+   is on the sphere of radius R; the squared chord between two locations is 2 R^2 (1 - cos(central angle)); hence
+   "smallest chord distance" in the theorems above is "smallest geocentric (central) angle".  [k] = deg2rad. *)
+Theorem C02_xyz_on_sphere : forall Re k lon lat : R,
+  let '(x, y, z) := xyzR Re k lon lat in (x * x + y * y + z * z = Re * Re)%R.
+Proof. exact xyz_on_sphere. Qed.
+Print Assumptions C02_xyz_on_sphere.
+Theorem C02_chord_is_central_angle : forall Re k lon1 lat1 lon2 lat2 : R,
+  sqdist3 (xyzR Re k lon1 lat1) (xyzR Re k lon2 lat2)
+  = (2 * Re * Re * (1 - cosang (lon1 * k) (lat1 * k) (lon2 * k) (lat2 * k)))%R.
+Proof. exact sqdist_central_angle. Qed.
+Print Assumptions C02_chord_is_central_angle.
+Theorem C02_chord_order_is_angle_order : forall Re k lont latt lon1 lat1 lon2 lat2 : R, (0 < Re)%R ->
+  ((sqdist3 (xyzR Re k lont latt) (xyzR Re k lon1 lat1) <= sqdist3 (xyzR Re k lont latt) (xyzR Re k lon2 lat2))%R
+   <-> (cosang (lont * k) (latt * k) (lon2 * k) (lat2 * k) <= cosang (lont * k) (latt * k) (lon1 * k) (lat1 * k))%R).
+Proof. exact chord_order_is_angle_order. Qed.
+Print Assumptions C02_chord_order_is_angle_order.
 
 (* ------------------------------------------------------------------------------------------------------------
    Refuted on the unchanged tree (known findings C02.mask_sentinel, C02.shape.masked_single_channel):
@@ -326,4 +417,9 @@ Example C02_ex_valid_f64 :
       [(180, 90); (-180, -90); (0x1.6800000000001p+7, 0); (0, 0x1.6800000000001p+6); (PrimFloat.nan, 0); (0, PrimFloat.nan);
        (infinity, 0); (0, neg_infinity); (0x1.93e5939a08ceap+99, 0); (-0x1.69p+7, 0)]%float
   = [true; true; false; false; false; false; false; false; false; false].
+Proof. vm_compute. reflexivity. Qed.
+(* two row segments of the 2 x 2 target grid give the neighbour info of the single query (C02_ex_result) *)
+Example C02_any_segments_ex :
+  Organise.neighbour_info (ex_knn (KDTree.compact ex_vin)) (fun t => nth t ex_vout false) 2%Z [[0; 1]; [2; 3]] 4%Z
+  = (map Some [true; true; true; false], map Some [0; 1; 3]).
 Proof. vm_compute. reflexivity. Qed.
